@@ -248,7 +248,7 @@ prop("C01", engine="e1", rule=(
     "and operator() and compared with the brute-force reference model; "
     "non-trivial = some called tuple has >= 2 applicable definitions; "
     "distinct = canonical hash of (registry, configuration)"),
-    quick=dict(also=[dict(engine="e2", workers=4, cases=600)], cases=6000, size=60), thorough=dict(fuzz=dict(engine="e1f", workers=4, runs=300000), also=[dict(engine="e2", workers=4, cases=20000)], cases=200000, size=100))
+    quick=dict(also=[dict(engine="e2", workers=4, cases=2000)], cases=20000, size=60), thorough=dict(fuzz=dict(engine="e1f", workers=4, runs=300000), also=[dict(engine="e2", workers=4, cases=20000)], cases=200000, size=100))
 prop("C03", engine="e1", program="c03", rule=(
     "random registries; after update the next pointer written for every "
     "definition is compared with the model's select() over strictly more "
@@ -483,9 +483,9 @@ prop("C14", engine="e1", rule=(
     "class_declaration (pack and type-list forms) / method / definition "
     "objects of one policy constructed and destroyed at random while the "
     "catalogs of a second policy and of the default policy must not change"),
-    quick=dict(cases=3000, size=60,
+    quick=dict(cases=8000, size=60,
                also=[dict(engine="e5", variants=["catalogs"], workers=2,
-                          cases=3000)]),
+                          cases=8000)]),
     thorough=dict(cases=30000, size=100,
                   also=[dict(engine="e5", variants=["catalogs"], workers=2,
                              cases=100000)]))
@@ -543,7 +543,7 @@ prop("C19", engine="e6", variants=["names", "types"], rule=(
     technique="grammar-based property testing (rapidcheck) with a parser "
               "of the emitted declarations as oracle; thorough tier adds "
               "coverage-guided fuzzing (libFuzzer) of the same grammar",
-    quick=dict(cases=6000, size=60),
+    quick=dict(cases=30000, size=60),
     thorough=dict(cases=200000, size=100,
                   fuzz=dict(engine="e6f", workers=4, runs=150000)))
 prop("C16", engine="e2t", tsan=True, rule=(
@@ -564,7 +564,7 @@ prop("C16", engine="e2t", tsan=True, rule=(
     note="Trusted: ThreadSanitizer, the harness. The harness does not own "
          "the scheduler: a result divergence that needs a specific "
          "interleaving without a data race would only be found by luck.",
-    quick=dict(cases=80, size=60), thorough=dict(cases=2500, size=100))
+    quick=dict(cases=400, size=60), thorough=dict(cases=2500, size=100))
 prop("C17", engine="e1", rule=(
     "random registries with random abstract flags (roots and middles "
     "biased abstract), gappy and deliberately ambiguous (duplicated) "
